@@ -1,4 +1,6 @@
 // ======== spec vocabulary of U1 (pure Verus; mentions no code)
+// puts a term in front of the solver (trigger for the quantified invariants)
+pub proof fn mention(b: bool) {}
 pub type IdsT = Seq<Vec<ArrayVec<SystemId, MAX_SYSTEMS_PER_GROUP>>>;
 pub type RwsT = Seq<Vec<Vec<ResourceId>>>;
 
@@ -48,53 +50,53 @@ pub open spec fn spec_find_conflict(ids: IdsT, reads: RwsT, writes: RwsT, stage:
     let dc = any_dep_only(ids, reads, writes, stage, nr, nw, dep, n);
     if (dc && dep.len() > 1) || (!dc && dep.len() != 0) { Conflict::Multiple } else { fold_hits(ids, reads, writes, stage, nr, nw, dep, n) }
 }
-// what a verdict means (used by insertion_target): derived from the definition by lemma_verdict
-pub open spec fn verdict_ok(c: Conflict, ids: IdsT, reads: RwsT, writes: RwsT, stage: int, nr: Seq<ResourceId>, nw: Seq<ResourceId>, dep: Seq<SystemId>) -> bool {
+// ---- what a verdict means, one predicate per property (find_conflict is proved against each directly)
+// C01: a stage is offered as `None` only if no group conflicts on resources, as `Single(h)` only if no other group does
+pub open spec fn verdict_iso(c: Conflict, ids: IdsT, reads: RwsT, writes: RwsT, stage: int, nr: Seq<ResourceId>, nw: Seq<ResourceId>) -> bool {
     match c {
-        Conflict::None => dep.len() == 0
-            && forall|g: int| 0 <= g < ids[stage].len() ==> !res_conflict(#[trigger] reads[stage][g]@, writes[stage][g]@, nr, nw),
+        Conflict::None => forall|g: int| 0 <= g < ids[stage].len() ==> !res_conflict(#[trigger] reads[stage][g]@, writes[stage][g]@, nr, nw),
         Conflict::Single(h) => h < ids[stage].len()
-            && (forall|g: int| 0 <= g < ids[stage].len() && g != h ==> !res_conflict(#[trigger] reads[stage][g]@, writes[stage][g]@, nr, nw))
-            && (forall|i: int| 0 <= i < dep.len() ==> ids[stage][h as int]@.contains(#[trigger] dep[i])),
-        // C10: a rejected stage holds a conflicting group, a dependency, or dependencies are still pending
+            && (forall|g: int| 0 <= g < ids[stage].len() && g != h ==> !res_conflict(#[trigger] reads[stage][g]@, writes[stage][g]@, nr, nw)),
+        Conflict::Multiple => true,
+    }
+}
+// C02: `None` only with no pending dependency; `Single(h)` only if every pending dependency is inside group h
+pub open spec fn verdict_dep(c: Conflict, ids: IdsT, stage: int, dep: Seq<SystemId>) -> bool {
+    match c {
+        Conflict::None => dep.len() == 0,
+        Conflict::Single(h) => h < ids[stage].len() && (forall|i: int| 0 <= i < dep.len() ==> ids[stage][h as int]@.contains(#[trigger] dep[i])),
+        Conflict::Multiple => true,
+    }
+}
+// C10: a stage is refused only for a reason: a group that conflicts / holds a dependency, or dependencies still pending
+pub open spec fn verdict_fit(c: Conflict, ids: IdsT, reads: RwsT, writes: RwsT, stage: int, nr: Seq<ResourceId>, nw: Seq<ResourceId>, dep: Seq<SystemId>) -> bool {
+    match c {
+        Conflict::None => true,
+        Conflict::Single(h) => h < ids[stage].len() && hit_at(ids, reads, writes, stage, h as int, nr, nw, dep),
         Conflict::Multiple => dep.len() != 0
             || exists|g: int| 0 <= g < ids[stage].len() && res_conflict(#[trigger] reads[stage][g]@, writes[stage][g]@, nr, nw),
     }
 }
-pub proof fn lemma_fold_hits(ids: IdsT, reads: RwsT, writes: RwsT, stage: int, nr: Seq<ResourceId>, nw: Seq<ResourceId>, dep: Seq<SystemId>, n: int)
-    requires 0 <= n <= usize::MAX
-    ensures
-        match fold_hits(ids, reads, writes, stage, nr, nw, dep, n) {
-            Conflict::None => forall|g: int| 0 <= g < n ==> !#[trigger] hit_at(ids, reads, writes, stage, g, nr, nw, dep),
-            Conflict::Single(h) => 0 <= h < n && hit_at(ids, reads, writes, stage, h as int, nr, nw, dep)
-                && forall|g: int| 0 <= g < n && g != h ==> !#[trigger] hit_at(ids, reads, writes, stage, g, nr, nw, dep),
-            Conflict::Multiple => exists|g: int| 0 <= g < n && #[trigger] hit_at(ids, reads, writes, stage, g, nr, nw, dep),
-        }
-    decreases n
-{
-    if n > 0 { lemma_fold_hits(ids, reads, writes, stage, nr, nw, dep, n - 1); }
-}
-pub proof fn lemma_dep_only(ids: IdsT, reads: RwsT, writes: RwsT, stage: int, nr: Seq<ResourceId>, nw: Seq<ResourceId>, dep: Seq<SystemId>, n: int)
-    ensures
-        any_dep_only(ids, reads, writes, stage, nr, nw, dep, n) ==> exists|g: int| 0 <= g < n && #[trigger] hit_at(ids, reads, writes, stage, g, nr, nw, dep) && inter(dep, ids[stage][g]@),
-        !any_dep_only(ids, reads, writes, stage, nr, nw, dep, n) ==> forall|g: int| 0 <= g < n && #[trigger] hit_at(ids, reads, writes, stage, g, nr, nw, dep) ==> res_conflict(reads[stage][g]@, writes[stage][g]@, nr, nw),
-    decreases n
-{
-    if n > 0 {
-        lemma_dep_only(ids, reads, writes, stage, nr, nw, dep, n - 1);
-        if dep_only_at(ids, reads, writes, stage, n - 1, nr, nw, dep) {
-            assert(hit_at(ids, reads, writes, stage, n - 1, nr, nw, dep) && inter(dep, ids[stage][n - 1]@));
-        }
+pub open spec fn acc_sound(c: Conflict, ids: IdsT, reads: RwsT, writes: RwsT, stage: int, nr: Seq<ResourceId>, nw: Seq<ResourceId>, dep: Seq<SystemId>, n: int) -> bool {
+    match c {
+        Conflict::None => forall|g: int| 0 <= g < n ==> !#[trigger] hit_at(ids, reads, writes, stage, g, nr, nw, dep),
+        Conflict::Single(h) => 0 <= h < n && forall|g: int| 0 <= g < n && g != h ==> !#[trigger] hit_at(ids, reads, writes, stage, g, nr, nw, dep),
+        Conflict::Multiple => true,
     }
 }
-pub proof fn lemma_verdict(ids: IdsT, reads: RwsT, writes: RwsT, stage: int, nr: Seq<ResourceId>, nw: Seq<ResourceId>, dep: Seq<SystemId>)
-    requires ids[stage].len() <= usize::MAX
-    ensures verdict_ok(spec_find_conflict(ids, reads, writes, stage, nr, nw, dep), ids, reads, writes, stage, nr, nw, dep)
+pub open spec fn acc_complete(c: Conflict, ids: IdsT, reads: RwsT, writes: RwsT, stage: int, nr: Seq<ResourceId>, nw: Seq<ResourceId>, dep: Seq<SystemId>, n: int) -> bool {
+    match c {
+        Conflict::None => true,
+        Conflict::Single(h) => 0 <= h < n && hit_at(ids, reads, writes, stage, h as int, nr, nw, dep),
+        Conflict::Multiple => exists|g: int| 0 <= g < n && #[trigger] hit_at(ids, reads, writes, stage, g, nr, nw, dep),
+    }
+}
+pub proof fn lemma_acc_sound_iso(c: Conflict, ids: IdsT, reads: RwsT, writes: RwsT, stage: int, nr: Seq<ResourceId>, nw: Seq<ResourceId>, dep: Seq<SystemId>)
+    requires acc_sound(c, ids, reads, writes, stage, nr, nw, dep, ids[stage].len() as int)
+    ensures verdict_iso(c, ids, reads, writes, stage, nr, nw)
 {
     let n = ids[stage].len() as int;
-    lemma_fold_hits(ids, reads, writes, stage, nr, nw, dep, n);
-    lemma_dep_only(ids, reads, writes, stage, nr, nw, dep, n);
-    match spec_find_conflict(ids, reads, writes, stage, nr, nw, dep) {
+    match c {
         Conflict::None => {
             assert forall|g: int| 0 <= g < n implies !res_conflict(#[trigger] reads[stage][g]@, writes[stage][g]@, nr, nw) by {
                 assert(!hit_at(ids, reads, writes, stage, g, nr, nw, dep));
@@ -104,22 +106,54 @@ pub proof fn lemma_verdict(ids: IdsT, reads: RwsT, writes: RwsT, stage: int, nr:
             assert forall|g: int| 0 <= g < n && g != h implies !res_conflict(#[trigger] reads[stage][g]@, writes[stage][g]@, nr, nw) by {
                 assert(!hit_at(ids, reads, writes, stage, g, nr, nw, dep));
             }
-            if dep.len() != 0 {
-                let g = choose|g: int| 0 <= g < n && #[trigger] hit_at(ids, reads, writes, stage, g, nr, nw, dep) && inter(dep, ids[stage][g]@);
-                assert(g == h);
-                let (a, b) = choose|a: int, b: int| 0 <= a < dep.len() && 0 <= b < ids[stage][g]@.len() && dep[a] == ids[stage][g]@[b];
-                assert forall|i: int| 0 <= i < dep.len() implies ids[stage][h as int]@.contains(#[trigger] dep[i]) by {
-                    assert(i == 0 && a == 0);
-                    assert(ids[stage][h as int]@[b] == dep[i]);
+        }
+        Conflict::Multiple => {}
+    }
+}
+// the verdict finally returned is `c` unless the dependency test overrides it with Multiple
+pub proof fn lemma_acc_sound_dep(c: Conflict, dc: bool, ids: IdsT, reads: RwsT, writes: RwsT, stage: int, nr: Seq<ResourceId>, nw: Seq<ResourceId>, dep: Seq<SystemId>)
+    requires
+        acc_sound(c, ids, reads, writes, stage, nr, nw, dep, ids[stage].len() as int),
+        dc ==> exists|g: int| 0 <= g < ids[stage].len() && #[trigger] hit_at(ids, reads, writes, stage, g, nr, nw, dep) && inter(dep, ids[stage][g]@),
+    ensures
+        !((dc && dep.len() > 1) || (!dc && dep.len() != 0)) ==> verdict_dep(c, ids, stage, dep)
+{
+    let n = ids[stage].len() as int;
+    if !((dc && dep.len() > 1) || (!dc && dep.len() != 0)) {
+        if dep.len() != 0 {
+            let g = choose|g: int| 0 <= g < n && #[trigger] hit_at(ids, reads, writes, stage, g, nr, nw, dep) && inter(dep, ids[stage][g]@);
+            match c {
+                Conflict::None => { assert(false); }
+                Conflict::Single(h) => {
+                    assert(g == h);
+                    let (a, b) = choose|a: int, b: int| 0 <= a < dep.len() && 0 <= b < ids[stage][g]@.len() && dep[a] == ids[stage][g]@[b];
+                    assert forall|i: int| 0 <= i < dep.len() implies ids[stage][h as int]@.contains(#[trigger] dep[i]) by {
+                        assert(i == 0 && a == 0);
+                        assert(ids[stage][h as int]@[b] == dep[i]);
+                    }
                 }
+                Conflict::Multiple => {}
             }
         }
-        Conflict::Multiple => {
-            if dep.len() == 0 {
-                let g = choose|g: int| 0 <= g < n && #[trigger] hit_at(ids, reads, writes, stage, g, nr, nw, dep);
-                assert(!inter(dep, ids[stage][g]@));
-                assert(res_conflict(reads[stage][g]@, writes[stage][g]@, nr, nw));
+    }
+}
+pub proof fn lemma_acc_complete(c: Conflict, dc: bool, ids: IdsT, reads: RwsT, writes: RwsT, stage: int, nr: Seq<ResourceId>, nw: Seq<ResourceId>, dep: Seq<SystemId>)
+    requires
+        acc_complete(c, ids, reads, writes, stage, nr, nw, dep, ids[stage].len() as int),
+    ensures
+        !((dc && dep.len() > 1) || (!dc && dep.len() != 0)) ==> verdict_fit(c, ids, reads, writes, stage, nr, nw, dep),
+{
+    let n = ids[stage].len() as int;
+    if !((dc && dep.len() > 1) || (!dc && dep.len() != 0)) {
+        match c {
+            Conflict::Multiple => {
+                if dep.len() == 0 {
+                    let g = choose|g: int| 0 <= g < n && #[trigger] hit_at(ids, reads, writes, stage, g, nr, nw, dep);
+                    assert(!inter(dep, ids[stage][g]@));
+                    assert(res_conflict(reads[stage][g]@, writes[stage][g]@, nr, nw));
+                }
             }
+            _ => {}
         }
     }
 }
